@@ -315,6 +315,25 @@ Fixpoint odf_text (pint : int_oracle) (skip : list str) (x : xml) : str :=
                end) cs
   end.
 
+(* the `leaf` elements of x in document order, looking through (possibly nested) wrapper elements
+   but not into anything else:
+     ods _iter_sheet_rows / odp _iter_table_rows  (leaf table:table-row; wrappers header-rows, table-rows, row-group)
+     odp _iter_slide_frames                       (leaf draw:frame; wrapper draw:g) *)
+Fixpoint collect_through (leaf : str) (wr : list str) (x : xml) : list xml :=
+  match x with
+  | Elem _ _ _ cs _ =>
+      (fix go (l : list xml) : list xml :=
+         match l with
+         | [] => []
+         | c :: r => (if tag_is leaf c then [c] else if mem_str (xtag c) wr then collect_through leaf wr c else []) ++ go r
+         end) cs
+  end.
+Definition ROW_WRAPPERS : list str := [s "table:table-header-rows"; s "table:table-rows"; s "table:table-row-group"].
+Definition table_rows (t : xml) : list xml := collect_through TABLE_ROW ROW_WRAPPERS t.
+Definition DRAW_FRAME := s "draw:frame".
+Definition DRAW_G := s "draw:g".
+Definition slide_frames (page : xml) : list xml := collect_through DRAW_FRAME [DRAW_G] page.
+
 (* descendants of x in document order, not entering children whose tag is `skip`
    (ods _iter_cell_paragraphs / odp _iter_paragraphs: the paragraphs of cell comments are left out) *)
 Fixpoint iter_skip (skip : str) (x : xml) : list xml :=
@@ -343,9 +362,9 @@ Definition odt_tables (pint : int_oracle) (skip : list str) (body : xml) : list 
 (* odp: cell text from _iter_paragraphs(cell) (annotations skipped), odt still uses cell.iter(text:p) *)
 Definition odp_cell (pint : int_oracle) (skip : list str) (c : xml) : str :=
   join NL (map (odf_text pint skip) (ods_cell_paras c)).
-(* odp _extract_table(table_elem): header rows first, then direct rows *)
+(* odp _extract_table(table_elem): the rows of _iter_table_rows, document order *)
 Definition odp_table (pint : int_oracle) (skip : list str) (t : xml) : list (list str) :=
-  let rows := flat_map (findall TABLE_ROW) (findall TABLE_HEADER_ROWS t) ++ findall TABLE_ROW t in
+  let rows := table_rows t in
   filter (fun r => negb (is_nil r)) (map (fun row => map (odp_cell pint skip) (findall TABLE_CELL row)) rows).
 
 Definition odf_r_para (p : para) : xml :=
@@ -446,11 +465,18 @@ Fixpoint pad_to (n : nat) (r : list val) : list val :=
   end.
 
 Definition ods_sheet (pint : int_oracle) (pflt : float_oracle) (table : xml) : option (list (list val)) :=
-  match ods_raw_rows pint pflt (findall TABLE_ROW table) with
+  match ods_raw_rows pint pflt (table_rows table) with
   | None => None
   | Some raw =>
       let rows := trim_trailing_rows raw in
       Some (map (pad_to (last_data_col rows)) rows)
+  end.
+
+(* the walker before fix aa77d43: direct table:table-row children only *)
+Definition ods_sheet_direct_rows (pint : int_oracle) (pflt : float_oracle) (table : xml) : option (list (list val)) :=
+  match ods_raw_rows pint pflt (findall TABLE_ROW table) with
+  | None => None
+  | Some raw => let rows := trim_trailing_rows raw in Some (map (pad_to (last_data_col rows)) rows)
   end.
 
 (* source cells of a spreadsheet *)
@@ -1114,3 +1140,13 @@ Fixpoint keys_sorted (l : list poskey) : bool :=
   | a :: r => match r with b :: _ => poskey_leb a b && keys_sorted r | [] => true end
   | [] => true
   end.
+
+(* an ODP page as the extractor sees it: frames found through draw:g groups; the harness records the
+   order-preserving ranks of (svg:y, svg:x) as attributes rank:y / rank:x of each frame *)
+Fixpoint nat_of_dec (acc : nat) (x : str) : nat :=
+  match x with c :: r => nat_of_dec (acc * 10 + N.to_nat (c - 48)) r | [] => acc end.
+Definition odp_frame (pint : int_oracle) (skip : list str) (f : xml) : frame :=
+  ((nat_of_dec 0 (xget (s "rank:y") [] f), nat_of_dec 0 (xget (s "rank:x") [] f)),
+   option_map (odp_table pint skip) (find TABLE_TABLE f)).
+Definition odp_page_tables (pint : int_oracle) (skip : list str) (page : xml) : list (list (list str)) :=
+  slide_tables (map (odp_frame pint skip) (slide_frames page)).
